@@ -74,7 +74,7 @@ func c11Cont(l *c11Log, j, pos int) func(int) *fpgo.MonadIODef[int] {
 		return func(x int) *fpgo.MonadIODef[int] {
 			m := fpgo.MonadIONewGenerics(func() int { l.add(id); return x + 7 })
 			if len(c11Inner) > 0 {
-				h := c11Inner[(pos+x)%len(c11Inner)]
+				h := c11Inner[((pos+x)%len(c11Inner)+len(c11Inner))%len(c11Inner)]
 				m = m.ObserveOn(h)
 				if pos%2 == 1 {
 					m = m.SubscribeOn(h)
